@@ -92,12 +92,13 @@ class World:
         self.faulted_ever = False; self.finished = []; self.lost_with_dead = []; self.dropped_no_worker = []
         self.dispatch_log = []     # (sid, token, idx, gen, sat_before) in dispatch order, filled by scanning queues
         self.seen = set()
-        self.replacements = 0; self.fault_reports = 0
+        self.replacements = 0; self.replaced = {}
         self.in_accept_one = False
         ex.env_turn = self.env_turn
         K = c['max_conns'] + 3
         self.pc_fn = single_var_pc('limit', list(range(1, K + 1)) + [c['limit_max']]) if c['limit'] is None else None
-        ex.after_send = self.after_send if c['race'] else None
+        ex.after_send = self.on_send
+        self.c04_marks = []; self.sends = []
 
     # ---- construction helpers
     def byname(self, sname, **kw):
@@ -271,17 +272,22 @@ class World:
     def replace(self, idx):
         for k, cmdv in enumerate(self.cmd.q):
             if isinstance(cmdv, Enum) and cmdv.variant == 'WorkerFaulted' and z3.simplify(cmdv.f[0].v).as_long() == idx:
-                self.cmd.q.pop(k); break
+                self.cmd.q.pop(k); self.replaced[idx] = self.replaced.get(idx, 0) + 1; break
         old = self.workers[idx]
         h = self.new_worker(idx, old['gen'] + 1); self.replacements += 1
         self.wake(Enum('WakerInterest', 'Worker', [h]))
 
-    def after_send(self, ch):
-        """Yield point inside the accept thread: right after `conn_tx.send`, before `inc_counter`. The worker may pick
-        the connection up and finish it (or another one) here."""
+    def on_send(self, ch):
+        """Called by the channel model right after a successful `conn_tx.send`, before `inc_counter` runs: records the
+        dispatch (for C04) and, in race mode, is the yield point at which the worker may already pick the connection up
+        and finish it (or another one)."""
         for idx, wk in self.workers.items():
             if wk['chan'] is ch and wk['alive']:
-                if self.ex.pick('race', ['no', 'yes']) == 'yes':
+                if self.cfg.get('track_c04'):
+                    n = {i: self.n_inprogress(i) - (1 if i == idx else 0) for i in self.workers}
+                    bits = {i: self.bit(i) for i in self.workers}
+                    self.c04_marks.append((n, bits)); self.sends.append(idx)
+                if self.cfg['race'] and self.ex.pick('race', ['no', 'yes']) == 'yes':
                     self.hist.append('race:'); self.acc.wit['finish_between_send_and_inc'] += 1
                     self.finish(idx)
 
@@ -289,9 +295,9 @@ class World:
         """Everything the future of this path depends on (real objects + ghost state), for the canonical state signature."""
         nW = len(self.workers)
         ghost = dict(nconn=self.nconn, nticks=self.nticks, stopped=self.stopped, faulted=self.faulted_ever, fin=sorted(self.finished) if self.cfg.get('track_c01') else None, lost=sorted(self.lost_with_dead) if self.cfg.get('track_c01') else None,
-                     repl=self.replacements, tail=self.dispatch_log[-(nW - 1):] if nW > 1 and self.cfg.get('track_c04') else None,
-                     marks=getattr(self, 'c04_marks', [])[-(nW - 1):] if nW > 1 and self.cfg.get('track_c04') else None,
-                     prev_dl=getattr(self, 'prev_dl', None), nohandles=getattr(self, 'had_no_handles', None), wakes=self.ex.wakes)
+                     repl=self.replacements, tail=self.sends[-(nW - 1):] if nW > 1 and self.cfg.get('track_c04') else None,
+                     marks=self.c04_marks[-(nW - 1):] if nW > 1 and self.cfg.get('track_c04') else None,
+                     prev_dl=getattr(self, 'prev_dl', None), dropped=sorted(self.dropped_no_worker) if self.cfg.get('track_c01') else None, replaced=self.replaced)
         ws = [(wk['idx'], wk['gen'], wk['alive'], wk['chan'], wk['counter'], wk['inservice'], wk['owed']) for wk in self.allworkers]
         return [self.accept, self.sockets, ws, self.wq, self.cmd, self.ex.clock, ghost]
 
